@@ -188,13 +188,23 @@ class PieceNode:
             if size != len(pathnode):
                 continue
             groups.setdefault(pathnode.get_part(loc), []).append(loc)
-        # try first the candidates that sit in a directory named like the
-        # one the torrent puts the file in
-        parent = os.path.basename(str(pathnode.path))
-        ordered = sorted(
-            groups.items(),
-            key=lambda item: parent not in
-            [os.path.basename(os.path.dirname(loc)) for loc in item[1]])
+        # try first the candidates whose location ends like the path the
+        # torrent gives the file (the more trailing components agree, the
+        # earlier)
+        wanted = Path(str(pathnode.full)).parts[::-1]
+
+        def agreement(item):
+            best = 0
+            for loc in item[1]:
+                count = 0
+                for have, want in zip(Path(loc).parts[::-1], wanted):
+                    if have != want:
+                        break
+                    count += 1
+                best = max(best, count)
+            return -best
+
+        ordered = sorted(groups.items(), key=agreement)
         for partial, locs in ordered:
             yield from self._find_matches(filemap, paths[1:], data + partial,
                                           chosen + (locs, ))
